@@ -5,27 +5,27 @@ Import ListNotations.
 Open Scope Z_scope.
 
 Lemma next_delay_spec limit max x :
-  max < limit -> 0 <= x -> next_delay limit max x = Z.min (2 * x) max.
+  max < limit -> 0 <= x -> ms_next_delay limit max x = Z.min (2 * x) max.
 Proof.
-  intros Hmax Hx. unfold next_delay, checked_double.
+  intros Hmax Hx. unfold ms_next_delay, ms_checked_double.
   destruct (2 * x <? limit) eqn:E.
   - reflexivity.
   - apply Z.ltb_ge in E. lia.
 Qed.
 
 (* overflow of checked_mul saturates to max *)
-Lemma next_delay_overflow limit max x : limit <= 2 * x -> next_delay limit max x = max.
+Lemma next_delay_overflow limit max x : limit <= 2 * x -> ms_next_delay limit max x = max.
 Proof.
-  intros H. unfold next_delay, checked_double.
+  intros H. unfold ms_next_delay, ms_checked_double.
   destruct (2 * x <? limit) eqn:E.
   - apply Z.ltb_lt in E. lia.
   - lia.
 Qed.
 
 Lemma nth_delay_range limit min max n :
-  min <= max -> 0 < min -> max < limit -> min <= nth_delay limit min max n <= max.
+  min <= max -> 0 < min -> max < limit -> min <= ms_nth_delay limit min max n <= max.
 Proof.
-  intros Hle Hpos Hlim. induction n as [|n IH]; cbn [nth_delay].
+  intros Hle Hpos Hlim. induction n as [|n IH]; cbn [ms_nth_delay].
   - lia.
   - rewrite next_delay_spec by lia. lia.
 Qed.
@@ -34,71 +34,71 @@ Qed.
    [min, max]; `max < limit` only says that max is itself a Duration *)
 Theorem backoff_bounds : forall limit min max n,
   min <= max -> 0 < min -> max < limit ->
-  let d := nth_delay limit min max n in
+  let d := ms_nth_delay limit min max n in
   min <= d <= max /\
-  nth_delay limit min max (S n) = Z.min (2 * d) max /\
-  (limit <= 2 * d -> nth_delay limit min max (S n) = max).
+  ms_nth_delay limit min max (S n) = Z.min (2 * d) max /\
+  (limit <= 2 * d -> ms_nth_delay limit min max (S n) = max).
 Proof.
   intros limit min max n Hle Hpos Hlim d.
   pose proof (nth_delay_range limit min max n Hle Hpos Hlim) as Hr. fold d in Hr.
   split; [exact Hr|]. split.
-  - cbn [nth_delay]. fold d. apply next_delay_spec; lia.
-  - intros Hov. cbn [nth_delay]. fold d. apply next_delay_overflow; exact Hov.
+  - cbn [ms_nth_delay]. fold d. apply next_delay_spec; lia.
+  - intros Hov. cbn [ms_nth_delay]. fold d. apply next_delay_overflow; exact Hov.
 Qed.
 
 (* once the maximum is reached it is kept *)
 Lemma nth_delay_sticks limit min max n :
   min <= max -> 0 < min -> max < limit ->
-  nth_delay limit min max n = max -> nth_delay limit min max (S n) = max.
+  ms_nth_delay limit min max n = max -> ms_nth_delay limit min max (S n) = max.
 Proof.
-  intros Hle Hpos Hlim H. cbn [nth_delay]. rewrite H. rewrite next_delay_spec by lia. lia.
+  intros Hle Hpos Hlim H. cbn [ms_nth_delay]. rewrite H. rewrite next_delay_spec by lia. lia.
 Qed.
 
 (* the operational object (what the code does call after call) follows the closed form *)
 Lemma failures_from_last limit s x n :
-  fst (failures limit {| b_strategy := s; b_last := Some x |} n)
-  = map (fun k => nth_delay limit x (s_max s) (S k)) (seq 0 n).
+  fst (ms_failures limit {| ms_b_strategy := s; ms_b_last := Some x |} n)
+  = map (fun k => ms_nth_delay limit x (ms_s_max s) (S k)) (seq 0 n).
 Proof.
   revert x. induction n as [|n IH]; intros x; [reflexivity|].
-  cbn [failures on_failure b_last b_strategy].
-  destruct (failures limit _ n) as [ds b2] eqn:E.
+  cbn [ms_failures ms_on_failure ms_b_last ms_b_strategy].
+  destruct (ms_failures limit _ n) as [ds b2] eqn:E.
   cbn [fst seq map]. f_equal.
   change ds with (fst (ds, b2)). rewrite <- E, IH.
   rewrite <- seq_shift, map_map. apply map_ext. intros k.
-  (* nth_delay from next_delay x, k+1 steps = nth_delay from x, k+2 steps *)
+  (* ms_nth_delay from ms_next_delay x, k+1 steps = ms_nth_delay from x, k+2 steps *)
   clear. revert x. induction k as [|k IHk]; intros x; [reflexivity|].
-  cbn [nth_delay] in *. rewrite IHk. reflexivity.
+  cbn [ms_nth_delay] in *. rewrite IHk. reflexivity.
 Qed.
 
 Theorem failures_spec limit min max n :
-  fst (failures limit (backoff_new {| s_min := min; s_max := max |}) n)
-  = map (nth_delay limit min max) (seq 0 n).
+  fst (ms_failures limit (ms_backoff_new {| ms_s_min := min; ms_s_max := max |}) n)
+  = map (ms_nth_delay limit min max) (seq 0 n).
 Proof.
   destruct n as [|n]; [reflexivity|].
-  cbn [failures backoff_new on_failure b_last b_strategy s_min].
-  destruct (failures limit _ n) as [ds b2] eqn:E.
-  cbn [fst seq map nth_delay]. f_equal.
+  cbn [ms_failures ms_backoff_new ms_on_failure ms_b_last ms_b_strategy ms_s_min].
+  destruct (ms_failures limit _ n) as [ds b2] eqn:E.
+  cbn [fst seq map ms_nth_delay]. f_equal.
   change ds with (fst (ds, b2)). rewrite <- E, failures_from_last.
-  cbn [s_max]. rewrite <- seq_shift, map_map. reflexivity.
+  cbn [ms_s_max]. rewrite <- seq_shift, map_map. reflexivity.
 Qed.
 
-(* a success forgets the history: the next failure waits `min` again *)
-Theorem reset_on_success limit b : snd (on_failure limit (on_success b)) = s_min (b_strategy b).
+(* a success forgets the history: the ms_next failure waits `min` again *)
+Theorem reset_on_success limit b : snd (ms_on_failure limit (ms_on_success b)) = ms_s_min (ms_b_strategy b).
 Proof. reflexivity. Qed.
 
 (* `RetryStrategy::new` accepts min > max; then the FIRST delay exceeds the configured maximum
    (all later ones are clamped) *)
 Theorem backoff_min_gt_max_refuted :
   exists limit min max, 0 < max < min /\ max < limit /\
-    nth_delay limit min max 0 > max /\ nth_delay limit min max 1 = max.
-Proof. exists limit_ns, 2, 1. vm_compute. repeat split; congruence. Qed.
+    ms_nth_delay limit min max 0 > max /\ ms_nth_delay limit min max 1 = max.
+Proof. exists ms_limit_ns, 2, 1. vm_compute. repeat split; congruence. Qed.
 
 (* ... and with min = 0 every delay is 0: the code (after the repair of F15) never schedules a
    retry less than 1 ms ahead, see Assoc.retry_delay *)
 Theorem backoff_zero_min_stays_zero limit max n : 0 <= max -> 0 < limit ->
-  nth_delay limit 0 max n = 0.
+  ms_nth_delay limit 0 max n = 0.
 Proof.
   intros Hmax Hlim. induction n as [|n IH]; [reflexivity|].
-  cbn [nth_delay]. rewrite IH. unfold next_delay, checked_double.
+  cbn [ms_nth_delay]. rewrite IH. unfold ms_next_delay, ms_checked_double.
   destruct (2 * 0 <? limit) eqn:E; [lia|]. apply Z.ltb_ge in E. lia.
 Qed.
